@@ -62,6 +62,17 @@ CHECKS = {
          "Inputs outside the alphabet are not covered; coefficients are kept below 2^24 as the property states.", "3/C17"),
 }
 
+# parts added after the fourth round of seeded changes (appended to the level text)
+ADDED = {
+ "C04": " Steering now includes seeds on which an invertible candidate misses the Gram-Schmidt bound by less than 1 (near-miss seeds, confirmed by a reference walk at run time).",
+ "C08": " A message-length ladder (every length 0..=1100, thorough 0..=4200, and lengths around 2^13..2^20) checks that the salt is new and non-zero whatever the message length.",
+ "C10": " The range half of I1 (all leaves in [sigma_min, sigma_max]) is checked on a wider key window (24/8 keys quick, 256/64 thorough, plus steering seeds).",
+ "C13": " A scale ladder repeats round trip and product with operands scaled by 2^k, k = -64..14 (exact scaling: a correct transform has the same relative error at every scale).",
+ "C15": " Single-bit flips also run on the seeds whose first candidate does not fit the encoding (retry branch) and on the seed with the longest rejection run.",
+ "C16": " Engineered signatures of squared norm bound-1, bound, bound+1 go through the reference verifier and ours; the verdicts must coincide.",
+ "C17": " Short unreduced pairs: (F,G) = round(rho X^c (f,g)) for rho in {1/2+, 3/4, 1-}, every coefficient shorter than the largest of (f,g), at every n.",
+}
+
 PENDING = {
 }
 
@@ -69,6 +80,7 @@ def main():
     checks = []
     for pid in sorted(CHECKS):
         tech, text, note, ref = CHECKS[pid]
+        text = text + ADDED.get(pid, "")
         checks.append({
             "property_id": pid,
             "quick_cmd": f"./vf check {pid} --tier quick",
